@@ -6,3 +6,6 @@ import Ark.Props.C02
 #print axioms Ark.Props.C02.count_exact
 #print axioms Ark.Props.C02.live_unique
 #print axioms Ark.Props.C02.reset_kills
+#print axioms Ark.Props.C02.alive_exact_world
+#print axioms Ark.Props.C02.count_world
+#print axioms Ark.Props.C02.handles_fresh_world
